@@ -236,8 +236,9 @@ func (c *c08ctx) checkString(s string, acc int, toks []tok, mode string, rng *ra
 			}
 			plain := joinToks(lexTokens(kinds, "canon", nil), 0, nil)
 			if pp := safeParse(plain); !pp.Out.bad() && pp.Err != nil {
-				d = "quoted-string-taken-as-keyword:" + mode[3:]
+				d = "quoted-string-taken-as-keyword"
 				rp["plain_rendering_rejected"] = plain
+				rp["string_content"] = mode[3:]
 			}
 		}
 		res.add(violation{Clause: "C08:accept", Detail: d, Msg: fmt.Sprintf("not a sentence of the grammar, but accepted: %s", s), Replay: rp})
@@ -436,7 +437,7 @@ func judgeSyn(res *result, s string, acc int, mode string, r grpcResult) {
 		if ok && acc == 0 {
 			d := "nonsentence-accepted"
 			if strings.HasPrefix(mode, "kw:") {
-				d = "quoted-string-taken-as-keyword:" + mode[3:]
+				d = "quoted-string-taken-as-keyword"
 			}
 			res.add(violation{Clause: "C08:accept", Detail: d, Msg: fmt.Sprintf("%s accepted a filter that is not a sentence of the grammar: %s", call.name, s), Replay: rp})
 		}
